@@ -81,6 +81,9 @@ func c11Run(c *Ctx) {
 		o.Surround, o.Use64, o.TopExtra = g.Bool(), g.Bool(), g.Bool()
 		o.Tail = g.Intn(3)
 		o.Brands = c.L("gen:x").Intn(13) // ftyp with up to 12 further compatible brands
+		if y := c.L("gen:y"); y.Chance(1, 3) {
+			o.Top64 = 1 + y.Intn(7) // moov / xpacket / preview boxes with 64-bit sizes
+		}
 		cr := gen.DrawCR3(g, o)
 		data, top, preview = cr.Bytes, cr.Top, o.Preview
 		// PreviewCR3 walks the layout cameras write: ftyp, moov, xpacket uuid, preview uuid
